@@ -385,6 +385,13 @@ def _stage_execution(I, obj):
             # the execution row comes with the loaded stage: remember its durable status (ghost) for the legal-write check
             I.st.objs[v.oid].meta["loaded"] = {"kind": "execution", "how": "stage.execution", "status": I.getattr(v, "status")}
         return v
+    # a stage that is an element of a loaded workflow's stage list belongs to that workflow
+    from .values import SList
+
+    for oid, rec in I.st.objs.items():
+        if (rec.cls == "Workflow" or (rec.ci is not None and rec.ci.name == "Workflow")) and isinstance(rec.fields.get("stages"), SList) \
+                and rec.fields["stages"].lid == obj.lid and len(obj.idx) == 1:
+            return SObj(oid)
     return I.elem_field(obj, "_execution", ("obj", "Workflow"))
 
 
